@@ -22,7 +22,7 @@ order-preserving sub-table of a duplicate-free type table) — see notes/C10.md 
 -/
 namespace C10
 open QM QM.Packaging
-open QM.Types (CInput CTag TypeIndex tagType tagAccepts isCompatible typesOverlap)
+open QM.Types (CInput CTag TypeIndex tagType tagAccepts isCompatible typesOverlap CTag.mapIds)
 
 /-- a program as the input of C08's compatibility computation -/
 def toCInput (ι : String → Nat) (P : Prog) : CInput :=
@@ -64,5 +64,108 @@ theorem shake_dropped_tag_never_accepted (ι : String → Nat) (P' : Prog) (fuel
     (hp : c' ≠ .integer ∧ c' ≠ .binary ∧ c' ≠ .reference) :
     tagAccepts (toCInput ι P') (TypeIndex.build (toTable ι P')) fuel p' c' = some false :=
   C08.rename_loses_tag_without_entry (toCInput ι P') fuel p' c' hc' hp
+
+/-- new function id ↦ old function id, etc. (the rank tables read backwards) -/
+def backFn (P : Prog) (out : ShakeOut) : Nat → Nat := backMap (sortAsc out.marks.fns) P.fns.size
+def backBuiltin (P : Prog) (out : ShakeOut) : Nat → Nat := backMap (sortAsc out.marks.builtins) P.builtins.size
+def backResource (P : Prog) (out : ShakeOut) : Nat → Nat := fun rid =>
+  match out.prog.resources[rid]? with
+  | some n => nameIdx n P.resources.toList
+  | none => 0
+
+/-- **`TablesAgree` in substance, for every program** (with b-c09's `C08.rename_invariant_of_embeds`):
+    every tag `c'` that has an index entry in the SHAKEN program is accepted by a kept pattern `p'` after
+    shaking exactly when the corresponding tag of the original program (tuple / function / builtin /
+    resource ids read back through the rank tables) was accepted by the original pattern — no hypothesis
+    about index lookups any more. Hypotheses: the original type table is duplicate-free (what
+    `register_type` guarantees; needed because `TypeIndex::build` keeps first occurrences) and the shaken
+    resource names occur among the original ones. The F13 exception is exactly the complement: a tag
+    WITHOUT an index entry after shaking (`shake_dropped_tag_never_accepted`). -/
+theorem shake_keeps_every_kept_tag_verdict (ι : String → Nat) {P : Prog} {e : Nat} {out : ShakeOut}
+    (h : treeShake P e = some out) (hnd : (toTable ι P).types.Nodup)
+    (hresP : ∀ n ∈ out.prog.resources.toList, n ∈ P.resources.toList)
+    (fuel p' id' : Nat) (c' : CTag)
+    (hc' : tagType (toCInput ι out.prog) (TypeIndex.build (toTable ι out.prog)) c' = some id') :
+    tagAccepts (toCInput ι P) (TypeIndex.build (toTable ι P)) fuel
+        (backMap (sortAsc out.marks.types) P.types.size p')
+        (c'.mapIds (backMap (sortAsc out.marks.tuples) P.tuples.size) (backFn P out) (backBuiltin P out)
+          (backResource P out)) =
+      tagAccepts (toCInput ι out.prog) (TypeIndex.build (toTable ι out.prog)) fuel p' c' := by
+  have E := shake_embeds ι h
+  -- unpack the sweep
+  have h0 := h
+  unfold treeShake treeShakeWith at h0
+  split at h0
+  · cases h0
+  · rename_i m hm
+    have hc := markAll_closed hm
+    obtain ⟨fs, fs', bs, hfs, hfs', hfnsEq, hbs, hbEq, hrEq⟩ := sweep_fns_builtins h0
+    have hmarks : out.marks = m := by
+      simp only [sweep] at h0
+      split at h0
+      · split at h0
+        · cases h0
+        · cases h0; rfl
+      · cases h0
+    refine C08.rename_invariant_of_embeds (toCInput ι out.prog) (toCInput ι P) E hnd (backFn P out)
+      (backBuiltin P out) (backResource P out) ?_ ?_ ?_ fuel p' id' c' hc'
+    · -- functions: the original function behind a kept one has the back-image of its type id
+      intro fid f hf
+      simp only [toCInput, List.getElem?_map, Option.map_eq_some_iff] at hf
+      obtain ⟨F', hF', rfl⟩ := hf
+      rw [hfnsEq] at hF'
+      have hF'' : fs'[fid]? = some F' := by simpa using hF'
+      rcases mapOpt_get? hfs' fid with ⟨_, hn⟩ | ⟨F, F2, hFa, hFb, hsh⟩
+      · rw [hF''] at hn; cases hn
+      · rw [hF''] at hFb; cases hFb
+        obtain ⟨hlen, hget⟩ := getAll_spec hfs
+        have hlt : fid < (sortAsc m.fns).length := by
+          rw [← hlen]
+          rcases Nat.lt_or_ge fid fs.length with h1 | h1
+          · exact h1
+          · rw [List.getElem?_eq_none h1] at hFa; cases hFa
+        have hs : (sortAsc m.fns)[fid]? = some (sortAsc m.fns)[fid] := List.getElem?_eq_getElem hlt
+        have hold : (sortAsc m.fns)[fid] ∈ m.fns := mem_sortAsc.mp (List.mem_of_getElem? hs)
+        have h1 : fs[fid]? = P.fns[(sortAsc m.fns)[fid]]? := hget fid _ hs
+        rw [hFa] at h1
+        simp only [shakeFn, Option.map_eq_some_iff] at hsh
+        obtain ⟨is, _, rfl⟩ := hsh
+        refine ⟨⟨F.typeId, isTypeOps F.instrs⟩, ?_, ?_⟩
+        · simp only [toCInput, List.getElem?_map, backFn, hmarks, backMap, hs]
+          have : P.fns.toList[(sortAsc m.fns)[fid]]? = some F := by simpa using h1.symm
+          rw [this]; rfl
+        · simp only [hmarks]
+          exact (back_of_marked (hc.fns _ hold F h1.symm)).symm
+    · -- builtins
+      intro bid b hb
+      simp only [toCInput, List.getElem?_map, Option.map_eq_some_iff] at hb
+      obtain ⟨B', hB', rfl⟩ := hb
+      rw [hbEq] at hB'
+      have hB'' : (bs.map (shakeBuiltin (shakeRen P m)))[bid]? = some B' := by simpa using hB'
+      simp only [List.getElem?_map, Option.map_eq_some_iff] at hB''
+      obtain ⟨B, hB, rfl⟩ := hB''
+      obtain ⟨hlen, hget⟩ := getAll_spec hbs
+      have hlt : bid < (sortAsc m.builtins).length := by
+        rw [← hlen]
+        rcases Nat.lt_or_ge bid bs.length with h1 | h1
+        · exact h1
+        · rw [List.getElem?_eq_none h1] at hB; cases hB
+      have hs : (sortAsc m.builtins)[bid]? = some (sortAsc m.builtins)[bid] := List.getElem?_eq_getElem hlt
+      have hold : (sortAsc m.builtins)[bid] ∈ m.builtins := mem_sortAsc.mp (List.mem_of_getElem? hs)
+      have h1 : bs[bid]? = P.builtins[(sortAsc m.builtins)[bid]]? := hget bid _ hs
+      rw [hB] at h1
+      obtain ⟨hp, hr⟩ := hc.builtins _ hold B h1.symm
+      simp only [toCInput, List.getElem?_map, backBuiltin, hmarks, backMap, hs]
+      have : P.builtins.toList[(sortAsc m.builtins)[bid]]? = some B := by simpa using h1.symm
+      rw [this]
+      simp only [Option.map_some, shakeBuiltin, Option.some.injEq, Prod.mk.injEq]
+      exact ⟨(back_of_marked hp).symm, (back_of_marked hr).symm⟩
+    · -- resources: by name
+      intro rid n hn
+      simp only [toCInput, List.getElem?_map, Option.map_eq_some_iff] at hn
+      obtain ⟨s, hs, rfl⟩ := hn
+      have hs' : out.prog.resources[rid]? = some s := by simpa using hs
+      have hmem : s ∈ P.resources.toList := hresP s (List.mem_of_getElem? hs)
+      simp only [toCInput, List.getElem?_map, backResource, hs', nameIdx_get hmem, Option.map_some]
 
 end C10
